@@ -1,15 +1,34 @@
 #!/bin/bash
 # tools/seed_suite.sh <seed dir>: confirm the repository's own suite passes with the seeded change applied.
+# Only packages whose (test) dependency closure contains a changed package are re-run: every other
+# package builds the identical test binary as on the unchanged tree, where the suite passes.
 export GOFLAGS=-mod=mod GOPROXY=off GOSUMDB=off GOTOOLCHAIN=local ELVISH_TEST_TIME_SCALE=20
 D="$(cd "$1" && pwd)"; NAME=$(basename "$D"); WT=/tmp/vsuite-$NAME-$$
 git -C /repo worktree add -q "$WT" HEAD || exit 2
 trap 'git -C /repo worktree remove --force "$WT" >/dev/null 2>&1' EXIT
 git -C "$WT" apply "$D/patch.diff" || { echo "SUITE $NAME applies=FAIL"; exit 1; }
-out=$(cd "$WT" && go test -trimpath -p 4 -vet=off -count=1 -timeout 40m ./... 2>&1)
+cd "$WT" || exit 2
+changed=$(git diff --name-only | xargs -n1 dirname | sort -u | sed 's|^|src.elv.sh/|' | tr '\n' ' ')
+pkgs=$(go list -test -f '{{.ImportPath}} {{join .Deps " "}}' ./... 2>/dev/null | python3 -c "
+import sys
+ch=set('$changed'.split())
+out=set()
+for line in sys.stdin:
+    f=line.split()
+    if not f: continue
+    base=f[0]
+    if len(f)>1 and f[1].startswith('[') and f[1].endswith('.test]'): base=f[1][1:-6]; f=[f[0]]+f[2:]
+    if base.endswith('.test'): base=base[:-5]
+    names=set(x.split('[')[0].strip() for x in f[1:])|{base}
+    if names & ch: out.add(base)
+print(' '.join(sorted(out)))")
+n=$(echo $pkgs | wc -w)
+[ "$n" -gt 0 ] || { echo "SUITE $NAME FAIL: no affected package found (changed: $changed)"; exit 1; }
+out=$(go test -trimpath -p 6 -vet=off -count=1 -timeout 40m $pkgs 2>&1); rc=$?
 fails=$(echo "$out" | grep -E "^(FAIL|panic:)" | grep -v "^FAIL$" | awk '{print $2}' | sort -u | tr '\n' ' ')
+if [ $rc -ne 0 ] && [ -z "$fails" ]; then echo "SUITE $NAME FAIL: go test exit $rc: $(echo "$out" | tail -2 | tr '\n' ' ')"; exit 1; fi
 if [ -n "$fails" ]; then
-  # re-run failing packages alone (timing tests flake under load)
   still=""
-  for p in $fails; do case "$p" in src.elv.sh*) (cd "$WT" && go test -trimpath -vet=off -count=1 "${p/src.elv.sh/.}" >/dev/null 2>&1) || still="$still $p";; esac; done
-  if [ -n "$still" ]; then echo "SUITE $NAME FAIL:$still"; else echo "SUITE $NAME pass (after solo re-run of: $fails)"; fi
-else echo "SUITE $NAME pass"; fi
+  for p in $fails; do case "$p" in src.elv.sh*) go test -trimpath -vet=off -count=1 "$p" >/dev/null 2>&1 || still="$still $p";; esac; done
+  if [ -n "$still" ]; then echo "SUITE $NAME FAIL:$still"; else echo "SUITE $NAME pass ($n affected packages re-run of 62; re-run alone after load flake: $fails)"; fi
+else echo "SUITE $NAME pass ($n affected packages re-run of 62)"; fi
